@@ -24,7 +24,7 @@ CHECK = dict(
           "sequences identified up to renaming of keys; reads/deletes of one absent key included) for "
           "each (max_size, min_size) in 1<=min<=max<=5 and min_size=default, L=7 quick / 8 thorough, "
           "each sequence replayed from an empty dictionary and ended by destroying the dictionary; "
-          "plus random histories of 200 operations over 6 keys (get/pop/setdefault/update/in/len/keys, "
+          "plus random histories of 200 operations over 6 keys (get/pop/popitem/clear/setdefault/update/in/len/keys, "
           "initial data, no callback). distinct = distinct (configuration, operation sequence); "
           "non-trivial = sequences containing an eviction or a deletion"),
     exhaustive={"quick": True, "thorough": True},
@@ -310,6 +310,40 @@ class Monitor(object):
                     self.fail("delete_cb spurious during %s of an absent key" % how, repr(new))
         self.check_state(how, k)
 
+    def clear(self, how="clear"):
+        """the inherited MutableMapping operations that drop keys without naming them"""
+        d, model = self.d, self.model
+        before = len(self.log)
+        if how == "clear":
+            dropped = list(model)
+            try:
+                d.clear()
+            except Exception as exc:
+                self.fail("clear raises %s" % type(exc).__name__, repr(exc))
+        else:
+            try:
+                k, v = d.popitem()
+                raised = None
+            except Exception as exc:
+                raised = (type(exc).__name__, repr(exc))
+            if not model:
+                if raised is None:
+                    self.fail("popitem of an empty dictionary does not raise", "")
+                dropped = []
+            else:
+                if raised is not None:
+                    self.fail("popitem raises %s" % raised[0], raised[1])
+                if k not in model or model[k] != v:
+                    self.fail("popitem returns an item that is not held", "%r: %r" % (k, v))
+                dropped = [k]
+        for k in dropped:
+            del model[k]
+            del self.uses_a[k]
+            del self.uses_b[k]
+            self.deletions += 1
+        self.expect_log(before, dropped, how)
+        self.check_state(how)
+
     def destroy(self):
         import gc
         before = len(self.log)
@@ -405,10 +439,14 @@ def run_shard(params, rec):
                     how = rng.choice(["getitem", "getitem", "get"])
                     ops.append((how, k))
                     mon.get(k, how)
-                else:
+                elif r < 0.97:
                     how = rng.choice(["delitem", "delitem", "pop"])
                     ops.append((how, k))
                     mon.delete(k, how)
+                else:
+                    how = rng.choice(["clear", "popitem"])
+                    ops.append((how, None))
+                    mon.clear(how)
                 rec.count("rop:" + how)
             rec.count("ops", len(ops))
             ops.append(("destroy", None))
